@@ -44,6 +44,10 @@ def env_for_workers():
     env['PATH'] = '/venv/bin:' + env.get('PATH', '')
     deps = os.path.join(ROOT, '.deps')
     env['PYTHONPATH'] = ROOT + os.pathsep + deps + (os.pathsep + env['PYTHONPATH'] if env.get('PYTHONPATH') else '')
+    # optional: run against a scratch copy of the repository (selftest / background runs); a copy that comes first on
+    # PYTHONPATH takes precedence over the editable install of /repo.  Registered commands never set this.
+    if env.get('VERIF_REPO'):
+        env['PYTHONPATH'] = env['VERIF_REPO'] + os.pathsep + env['PYTHONPATH']
     env['JAX_PLATFORMS'] = 'cpu'
     env['TF_CPP_MIN_LOG_LEVEL'] = '3'
     env['FFLAGS'] = '-fcheck=all -g -fbacktrace'
